@@ -535,12 +535,181 @@ def check_C19(ctx):
         "waiver: Contracts.known_waivers (encrypt.Filter.Process reading Event.Formatted through copystructure.Copy) mirrors known finding KF-C19-copy-vs-formattedas"]
 
 
+# ---------------------------------------------------------------- C04
+CKIND_TEXT = {
+    "KLost": "a Send that started after a pipeline's registration returned and ended before any other call on that pipeline id was requested did not deliver to it",
+    "KGhost": "a Send delivered to a pipeline that was certainly not registered (removed / replaced before the Send started, registered after it ended, or never registered)",
+    "KTwice": "one Send delivered twice to one pipeline", "KTwoVersions": "one Send delivered to two versions of one pipeline id",
+    "KWrongType": "a Send delivered to a pipeline of another event type",
+    "KNotLinearizable": "no sequential order of the concurrent calls that respects real time explains their results and the registry observed after they finished",
+}
+_CV = re.compile(r"CV =\s*\((\d+),\s*(\d+),\s*(\d+)\)")
+
+
+def _eval_conc(ctx, files):
+    """like V.eval_shards, additionally sums the certainty vectors"""
+    from concurrent.futures import ThreadPoolExecutor
+
+    def one(f):
+        rc, out = V.coqc(os.path.basename(f), os.path.dirname(f))
+        return f, rc, out
+    mism, failures, cv = [], [], [0, 0, 0]
+    with ThreadPoolExecutor(max_workers=V.JOBS) as ex:
+        for f, rc, out in ex.map(one, files):
+            if rc != 0 or "M =" not in out:
+                failures.append((f, out[-3000:]))
+                continue
+            body = out.split("M =", 1)[1].split("\n     :", 1)[0]
+            flat = re.sub(r"\s+", "", body)
+            if flat != "[]":
+                items = V._M_ITEM.findall(flat)
+                if not items:
+                    failures.append((f, "unparsed mismatch output: " + body[:2000]))
+                mism.extend(items)
+            m = _CV.search(out)
+            if m:
+                for i in range(3):
+                    cv[i] += int(m.group(i + 1))
+    return mism, failures, cv
+
+
+def _conch_cases(ctx, part):
+    binp, out = V.go_build(ctx, "./cmd/conch")
+    if not binp:
+        rp = V.write_replay(ctx, "harness-build", {"kind": "correspondence", "output": out[-4000:]})
+        ctx.violations.append({"match": "harness-build", "replay": rp, "what": "conch no longer builds against the tree", "no_input": True})
+        return
+    d = os.path.join(ctx.work, "conch-out")
+    os.makedirs(d, exist_ok=True)
+    args = [binp, "-out", d, "-cases", "300" if ctx.tier == "quick" else "4000", "-ops", "12" if ctx.tier == "quick" else "14",
+            "-sends", "8" if ctx.tier == "quick" else "12"]
+    corpus = os.path.join(V.VERIF, "corpus", "C04", "conch.jsonl")
+    if os.path.exists(corpus):
+        args += ["-corpus", corpus]
+    rc, out = V.run(args, env=dict(os.environ, VERIF_SEED=str(ctx.seed)), timeout=3000)
+    ctx.log(out.strip()[-300:])
+    if rc != 0:
+        rp = V.write_replay(ctx, "harness-run", {"kind": "correspondence", "output": out[-4000:]})
+        ctx.violations.append({"match": "harness-crash", "replay": rp, "what": "conch crashed", "no_input": True})
+        return
+    summ = json.load(open(os.path.join(d, "cases_summary.json")))
+    cases = {}
+    for line in open(os.path.join(d, "cases.jsonl")):
+        c = json.loads(line)
+        cases[c["id"]] = c
+    for p in summ.get("panics") or []:
+        cid = int(p.split()[1].rstrip(":"))
+        rp = V.write_replay(ctx, "panic-%d" % cid, {"kind": "correspondence", "engine": "conch", "what": p, "case": cases.get(cid)})
+        ctx.violations.append({"match": "panic:" + p.split("panic:", 1)[-1][:60], "replay": rp, "what": "Broker panicked under concurrent use: " + p})
+    mism, failures, cv = _eval_conc(ctx, summ["files"])
+    lits = {}
+    for f in summ["files"]:     # keep the literal of failing cases for the replay
+        if mism:
+            txt = open(f).read()
+            for cid, _, _, _ in mism:
+                m = re.search(r"(Build_ccase %s%%N\n.*?)(?=;\nBuild_ccase |\n\]\.)" % cid, txt, re.S)
+                if m:
+                    lits[int(cid)] = m.group(1)
+    V.prune_shards(summ["files"], keep=[f for f, _ in failures])
+    for f, o in failures:
+        rp = V.write_replay(ctx, "coqc-" + os.path.basename(f), {"kind": "correspondence", "theorem_or_correspondence": "Run_Conc.mismatches on " + f, "output": o})
+        ctx.violations.append({"match": "coqc-failure", "replay": rp, "what": "case file %s could not be evaluated" % f, "no_input": True})
+    budget = 0
+    by_kind = {}
+    for cid, step, opk, kind in mism:
+        if kind == "KLinBudget":
+            budget += 1
+            continue
+        c = cases[int(cid)]
+        n = sum(len(t) for t in c["threads"])
+        if kind not in by_kind or n < by_kind[kind][0]:
+            by_kind[kind] = (n, int(cid), int(step))
+    for kind, (n, cid, step) in sorted(by_kind.items()):
+        rp = V.write_replay(ctx, "conch-" + kind, {
+            "kind": "correspondence", "engine": "conch", "theorem_or_correspondence": "Run_Conc.mismatches (delivery bounds of ConcProofs.send_delivery_bounds / linearizability against Broker.step)",
+            "signature": kind, "meaning": CKIND_TEXT.get(kind, kind), "send_index": step, "case": cases[cid], "observed_case_literal": lits.get(cid),
+            "cases_with_this_kind": sum(1 for m in mism if m[3] == kind), "repro": "bin/check replay <this file>"})
+        ctx.violations.append({"match": "conc:" + kind, "replay": rp, "what": "C04: %s (case %d, %d cases affected)" % (CKIND_TEXT.get(kind, kind), cid, sum(1 for m in mism if m[3] == kind))})
+    ctx.coverage["evaluations"] += summ["cases"]
+    ctx.coverage["distinct_nontrivial"] += summ["distinct_nontrivial"]
+    ctx.coverage["traces_validated_against_impl"] = ctx.coverage.get("traces_validated_against_impl", 0) + summ["cases"]
+    part.update({k: summ[k] for k in summ if k not in ("files", "panics")})
+    part["send_x_pipeline_version_pairs"] = {"certainly_exactly_once": cv[0], "certainly_never": cv[1], "overlapping(0 or 1 accepted)": cv[2]}
+    part["linearizability_searches_out_of_budget(inconclusive)"] = budget
+    part["rule"] = ("2..8 goroutines run random registry histories (RegisterNode/RemoveNode/RegisterPipeline/RemovePipeline/RemovePipelineAndNodes/threshold setters) over "
+                    "4 node ids x 3 pipeline ids x 2 event types after a sequential set-up, concurrently with 1..3 senders; calls bracketed by an atomic tick counter; "
+                    "Coq evaluates per (Send, pipeline version) the delivery bounds and searches a linearization with Broker.step. distinct_nontrivial = distinct "
+                    "histories in which at least two calls overlapped in real time and at least one delivery happened.")
+    ctx.coverage["rule"] = part["rule"]
+    ids = sorted(cases)
+    ctx.coverage["samples"] += [cases[i] for i in ids[:1]]
+
+
+def _conch_race(ctx, part, info):
+    binp, out = V.go_build(ctx, "./cmd/conch", race=True)
+    if not binp:
+        rp = V.write_replay(ctx, "harness-build", {"kind": "correspondence", "output": out[-4000:]})
+        ctx.violations.append({"match": "harness-build", "replay": rp, "what": "conch no longer builds (-race) against the tree", "no_input": True})
+        return []
+    from concurrent.futures import ThreadPoolExecutor
+    nproc, ncases = (4, "40") if ctx.tier == "quick" else (8, "600")
+    base = os.path.join(ctx.work, "conch-race-out")
+
+    def one(i):
+        d = os.path.join(base, "r%d" % i)
+        os.makedirs(d, exist_ok=True)
+        sc = {"mode": "race", "seed": ctx.seed * 100 + i, "cases": int(ncases)}
+        env = dict(os.environ, VERIF_SEED=str(sc["seed"]), GORACE="log_path=%s halt_on_error=0" % os.path.join(d, "race"))
+        rc, o = V.run([binp, "-mode", "race", "-cases", ncases, "-out", d], env=env, timeout=2400)
+        log = "".join(open(os.path.join(d, f), errors="replace").read() for f in sorted(os.listdir(d)) if f.startswith("race."))
+        return sc, rc, o, log
+    reports, hist, crashed = [], 0, []
+    with ThreadPoolExecutor(max_workers=nproc) as ex:
+        for sc, rc, o, log in ex.map(one, range(nproc)):
+            if rc not in (0, 66):
+                crashed.append((sc, rc, o[-3000:]))
+                continue
+            hist += sc["cases"]
+            if "PANIC" in o:
+                rp = V.write_replay(ctx, "race-panic-%d" % sc["seed"], {"kind": "correspondence", "engine": "conch", "case": sc, "output": o[-3000:]})
+                ctx.violations.append({"match": "panic:concurrent", "replay": rp, "what": "Broker panicked under concurrent use (-race run)"})
+            reports += parse_race_reports(log, info, scenario=sc) if info else []
+    for sc, rc, o in crashed:
+        rp = V.write_replay(ctx, "race-crash-%d" % sc["seed"], {"kind": "correspondence", "engine": "conch", "case": sc, "exit_code": rc, "output": o})
+        ctx.violations.append({"match": "crash:conch-race", "replay": rp, "what": "conch -race run crashed (exit %s): %s" % (rc, o.strip().splitlines()[-1][:120] if o.strip() else "")})
+    part.update({"processes": nproc, "histories": hist, "race_reports": len(reports), "race_pairs_seen": sorted(set(r["token"] for r in reports)),
+                 "rule": "the same random concurrent histories (longer), plus goroutines calling SuccessThreshold(Sinks), IsAnyPipelineRegistered, Reopen and the threshold setters, under the race detector"})
+    ctx.coverage["evaluations"] += hist
+    return reports
+
+
+def check_C04(ctx):
+    V.check_properties_file(ctx, "Properties_C04.v")
+    st = static_part(ctx, "C04")
+    part = {}
+    ctx.coverage["parts"]["concurrent-histories(delivery+linearizability)"] = part
+    _conch_cases(ctx, part)
+    rpart = {}
+    ctx.coverage["parts"]["concurrent-histories(-race)"] = rpart
+    reports = _conch_race(ctx, rpart, st["info"])
+    if st["dir"]:
+        report_static(ctx, "C04", st, _race_evidence(reports, "conch"))
+    explained = set(t for g in st["groups"] for t in g["tokens"])
+    by_tok, ignored = report_races(ctx, "C04", [r for r in reports if r["token"] not in explained], is_broker_field, set())
+    rpart["race_reports_on_fields_of_other_properties_ignored"] = ignored
+    ctx.assumptions += ASSUME_COMMON + [
+        "sync.Map contract: Store / Delete / Load linearizable per key; Range visits no key twice and for each key reflects its mapping at some instant during the call",
+        "delivery theorem hypothesis: each call's single Store / Delete takes effect strictly inside its observed [invocation, return] interval (ticks of one atomic counter)",
+        "harness nodes pass every event on and never fail; Close never fails; Sends are not cancelled",
+        "linearizability is searched (depth-first over the linear extensions of the real-time order, budget 200000 nodes per history); out-of-budget searches are counted as inconclusive, not as violations"]
+
+
 # ---------------------------------------------------------------- manifest
 _NOTE = ("Trusted: Coq 8.16.1 kernel + vm_compute; no axioms (Print Assumptions: closed under the global context); the translator translate/ (source -> "
          "command language; cross-checked by the race detector), coq/Contracts.v (the discipline table = specification), the Go runtime's mutex semantics and memory "
          "model, the dynamic drivers (search only).")
 _TECH = "Coq soundness proof of a modular lockset checker + obligation re-evaluated by vm_compute on the program regenerated from source; dynamic search (-race / watchdog)"
-PROPS = {"C12": check_C12, "C19": check_C19}
+PROPS = {"C04": check_C04, "C12": check_C12, "C19": check_C19}
 MANIFEST = {
     "C12": {"text": "LockSound.v: check_sound (checker sound w.r.t. the big-step trace semantics, for every program/contract/extra caller locks), "
                     "program_callback_never_under / program_no_self_deadlock / program_call_releases_all for all threads incl. started goroutines; per run "
@@ -558,8 +727,17 @@ MANIFEST["C19"] = {
             "(cross-checked by -race). Search: stressh -race over compositions of stock nodes with shared instances, 2..8 senders and concurrent control calls; reports classified by "
             "(field, reader fn, writer fn).",
     "design_ref": "5.C19", "note": _NOTE, "technique": _TECH, "engine": "coq-locks"}
-ENGINE = {"name": "coq-locks", "path": "coq/LockLang.v coq/LockSound.v coq/Contracts.v coq/LockExamples.v coq/obligations translate/ harness/cmd/lockh harness/cmd/stressh harness/cmd/conch lib/eng_locks.py",
-          "serves_properties": ["C12", "C19"], "kind_free_text": "translator (Go source -> Coq command language) + proved lockset checker re-run by vm_compute; watchdog / race-detector search drivers"}
+MANIFEST["C04"] = {
+    "text": "(a) LockSound.v: check_sound + program_no_data_race for every program/contract; per run Obl_C04.v re-proves broker_race_free over the regenerated program "
+            "(Broker.nodes/graphs and nodeUsage fields -> Broker.lock; thresholds -> Broker.lock + graph.thresholdLock with readers holding either) and instantiates the "
+            "no-data-race theorem on it. (b) ConcProofs.v: send_delivery_bounds for every timed history consistent with the observed call intervals (exactly once / never / "
+            "at most once), at_most_one_version, never_stored_never_delivered, quiescent_sequential. Tie: conch runs 2..8 goroutines of random registry histories with concurrent "
+            "senders on the real Broker; Run_Conc.mismatches (vm_compute) checks every (Send, pipeline version) count against must1/must0 and searches a linearization of the "
+            "calls with Broker.step that explains all results and the final VerifSnapshot. Search: the same histories plus getters/Reopen/setters under -race, reports classified "
+            "by (field, reader fn, writer fn). Partial: Go memory model, sync.Map contract, translator completeness are assumed.",
+    "design_ref": "5.C04", "note": _NOTE, "technique": _TECH + "; differential correspondence on concurrent histories", "engine": "coq-locks"}
+ENGINE = {"name": "coq-locks", "path": "coq/LockLang.v coq/LockSound.v coq/Contracts.v coq/LockExamples.v coq/Conc.v coq/ConcProofs.v coq/ConcExamples.v coq/Run_Conc.v coq/obligations translate/ harness/cmd/lockh harness/cmd/stressh harness/cmd/conch lib/eng_locks.py",
+          "serves_properties": ["C04", "C12", "C19"], "kind_free_text": "translator (Go source -> Coq command language) + proved lockset checker re-run by vm_compute; watchdog / race-detector search drivers"}
 
 
 # ---------------------------------------------------------------- replay
